@@ -79,7 +79,7 @@ UNIT = dict(
     src('dtor', CLS + r'~kirsch_bounded_kfifo_queue\(\)', 'static void kbq_dtor(struct kbq* self)', must_fire={'A_LOAD': 1, 'subst:traits': 1, 'method:get': 1}),
   ],
   runs=[
-    dict(id='ctor', entry='h_ctor', cls='unbounded', note='all 64-bit k >= 1, num_segments >= 1, v, mark'),
+    dict(id='ctor', entry='h_ctor', cls='unbounded', trace_defs={'XV_TRACE_SMALL': 1}, note='all 64-bit k >= 1, num_segments >= 1, v, mark'),
     dict(id='in_valid', entry='h_in_valid', cls='unbounded'),
     dict(id='not_in_valid', entry='h_not_in_valid', cls='unbounded'),
   ] + [dict(id='find_index_%s_k%d' % (v, K), entry='h_find_index_' + v, cls='shape-complete', tiers=['quick', 'thorough'] if K <= 8 else ['thorough'],
@@ -122,6 +122,7 @@ UNIT = dict(
     'kbq.committed.withdrawn': dict(deciding=True, text='[INT] committed returns false only after its own CAS removed the item (never when a consumer took it)'),
     'kbq.push.validate': dict(deciding=True, text='[INT] try_push: slot CAS expects the word find_index read, after re-reading an unchanged tail; true needs committed(tail read, new word, idx) and releases the value once; false needs full observed for unchanged head/tail and leaves the value with the caller'),
     'kbq.pop.validate': dict(deciding=True, text='[INT] do_pop: slot CAS expects the word find_index read, after re-reading an unchanged head; tail is moved on first when head and tail index the same segment; empty needs no match, head==tail and unchanged tail'),
+    'kbq.sync.scan_acquire': dict(deciding=True, text='sync precondition: the slot loads of find_index and segment_empty are acquire-or-stronger (they pair with the release CAS of push/pop)'),
     'kbq.sync.slot_release': dict(deciding=True, text='sync precondition: the slot CAS of push and pop is release-or-stronger'),
     'kbq.find_index.result': dict(deciding=True, text='find_index returns true with the index and the value of a matching slot of the segment, false only if no slot of the segment matches'),
   },
@@ -130,5 +131,11 @@ UNIT = dict(
             'push.rejected', 'push.advanced_tail', 'push.advanced_head', 'push.bumped_head', 'push.on_empty', 'push.null', 'pop.empty', 'pop.empty_after_advancing', 'pop.not_the_oldest',
             'pop.advanced_tail', 'pop.advanced_head', 'init.reached', 'dtor.tracked', 'dtor.not_stored', 'segment_empty.true', 'segment_empty.false',
             'committed.taken', 'committed.at_head', 'committed.inside', 'committed.withdrawn', 'push_int.true', 'push_int.false', 'pop_int.moved_tail', 'pop_int.true', 'pop_int.empty'],
+  replays={'kbq.idx.roundtrip': dict(src='replay_idx.cpp'), 'kbq.ctor.size': dict(src='replay_idx.cpp'),
+           'kbq.in_valid.spec': dict(src='replay_region.cpp'), 'kbq.not_in_valid.spec': dict(src='replay_region.cpp'),
+           'kbq.push.reject': dict(src='replay_seq.cpp', fixed={'op': 0}), 'kbq.push.stores': dict(src='replay_seq.cpp', fixed={'op': 0}),
+           'kbq.pop.empty': dict(src='replay_seq.cpp', fixed={'op': 1}), 'kbq.pop.oldest_segment': dict(src='replay_seq.cpp', fixed={'op': 1}), 'kbq.pop.k_oldest': dict(src='replay_seq.cpp', fixed={'op': 1}),
+           # schedule replay (no inputs): needs the guarded hooks of units/kbq/hooks.diff in the tree that is replayed
+           'kbq.push.commit': dict(src='native_commit_order.cpp', no_inputs=True)},
   loop_obligation={'PUSH': 'kbq.push.validate', 'POP': 'kbq.pop.validate'},
 )
